@@ -2,7 +2,7 @@
 # Builds the analyzer from files on disk only (module cache; no network).
 set -e
 cd "$(dirname "$0")"
-export GOFLAGS=-mod=mod GOPROXY=off GOSUMDB=off GOTOOLCHAIN=local CGO_ENABLED=0
+export GOFLAGS=-mod=mod GOPROXY=off GOSUMDB=off GOTOOLCHAIN=local
 unset GOWORK
 mkdir -p bin evidence
 (cd analyzer && go build -o ../bin/alliancecheck .)
